@@ -105,6 +105,26 @@ def gen_case(rng):
                     led.apply(seq[3])
                     ops.extend(seq)
                     continue
+        if rng.random() < 0.08:
+            # the class "back-pressure arrives while senders wait for credit; the credit comes back while the
+            # transport is still paused": they must stay suspended until resume_writing
+            big = rng.choice([16384, 65535, 1 << 20])
+            grant = rng.choice([[['ws', j, big] for j in range(n)] + [['wc', big]],
+                                [['iw', big], ['wc', big]],
+                                [['st', [['iw', big], ['mcs', 100]]], ['wc', big]]])
+            rng.shuffle(grant)
+            seq = [['r'], ['iw', 0], ['q'], ['p']]
+            seq += [['b', grant]] if rng.random() < 0.5 else grant
+            seq += [['q'], ['r'], ['q']]
+            led2_ok = True
+            for o in seq:
+                if not led.valid(o):
+                    led2_ok = False
+                    break
+                led.apply(o)
+                ops.append(o)
+            if led2_ok:
+                continue
         if rng.random() < 0.22:
             op = gen_batch(rng, n) if rng.random() < 0.7 else gen_settings(rng)
         elif r < 0.03 and led.resets < U.NVICTIMS:
@@ -362,6 +382,8 @@ def oracle(case, obs):
     sent = obs.get('sent', [])
     frames = list(obs['frames'])
     recs = {r['op']: r for r in obs['records']}
+    prev_pcs = 'T' * n            # where each sender was at the previous quiescence
+    resumed_since = False         # a resume_writing may have been delivered since then
     for k, op in enumerate(case['ops']):
         led.apply(op)
         while frames and frames[0]['after_op'] == k:
@@ -403,15 +425,34 @@ def oracle(case, obs):
             if r['wr'] and r['paused']:
                 bad.append(('write_ready is set on a paused transport (back-pressure can no longer suspend '
                             'the senders)', {'kind': 'write-ready-on-paused-transport'}))
-            # back-pressure: once the transport is paused a sender emits at most the one chunk it
-            # had already been woken for
-            after = r['chunks'] if r.get('paused_before') else (r['chunks'][op[1]:] if op[0] == 'qp' else [])
+            # back-pressure: nothing is written between pause_writing and resume_writing, except the ONE
+            # chunk of a sender that resume_writing had already woken (it was suspended on write_ready at
+            # the previous quiescence and a resume came since) before the transport paused again.  A
+            # sender woken by credit, or one that has not run yet, must suspend without writing.
+            if r.get('paused_before'):
+                before, after = [], r['chunks']
+            elif op[0] == 'qp':
+                before, after = r['chunks'][:op[1]], r['chunks'][op[1]:]
+            else:
+                before, after = [], []
             per = {}
             for i, _size in after:
                 per[i] = per.get(i, 0) + 1
-            if any(v > 1 for v in per.values()):
-                bad.append(('a sender kept sending while the transport was paused (%d frames)'
-                            % max(per.values()), {'kind': 'sent-while-paused'}))
+            for i, cnt in sorted(per.items()):
+                was = prev_pcs[i] if 0 <= i < len(prev_pcs) else 'B'
+                woken_by_resume = (was == 'W' and resumed_since) or was in 'B?'
+                allowed = 1 if woken_by_resume and not any(j == i for j, _ in before) else 0
+                if cnt > allowed:
+                    bad.append(('sender %d wrote %d DATA frame(s) while the transport was paused (it was %s at '
+                                'the previous quiescence; allowed %d)' % (i, cnt, {
+                                    'U': 'waiting for credit', 'W': 'suspended on write_ready',
+                                    'T': 'not started'}.get(was, was), allowed),
+                                {'kind': 'sent-while-paused', 'was': was}))
+                    break
+            prev_pcs = r['pcs']
+            resumed_since = False
+        elif op[0] in ('r', 'rp'):
+            resumed_since = True
     if frames:
         bad.append(('DATA frames outside any op', {'kind': 'stray-data'}))
     if case.get('final_grant') and obs['records']:
@@ -476,6 +517,9 @@ def check_cases(ctx, res, cases):
                     res.count('SETTINGS frame combining INITIAL_WINDOW_SIZE with ' +
                               '+'.join(sorted(k for k in keys if k != 'iw')))
         toks = [op[0] for op in case['ops']]
+        for k, r in enumerate(obs['records'][1:], 1):
+            if r.get('paused_before') and 'U' in obs['records'][k - 1]['pcs']:
+                res.count('run on a paused transport with a sender that had been waiting for credit')
         if any(toks[k] == 'rst' and 'rp' in toks[k + 1:k + 3] for k in range(len(toks))):
             res.count('case with reset while paused + resume re-pausing in its flush')
         for r in obs['records']:
